@@ -118,8 +118,15 @@ type vWorld struct {
 	narrow                                        *SwapData // when set, height answers are pinned to this swap's start height
 	storeRef                                      *vStore
 	interleave                                    func()
-	interleaved                                   bool
-	yieldAt                                       string
+	// effectProbe returns the swap whose transition is being observed; at every external effect (send,
+	// broadcast, payment, spend) the stubs compare the stored record with it (noteEffect)
+	effectProbe func() *SwapStateMachine
+	effectsSeen int
+	storeFailed bool
+	effectStale bool
+	staleAt     string
+	interleaved bool
+	yieldAt     string
 	// narrowOffset is added to the pinned height ("the chain has advanced by this much")
 	narrowOffset uint32
 }
@@ -182,6 +189,7 @@ func (l *vLightning) GetPayreq(msatAmount uint64, preimage string, swapId string
 }
 
 func (l *vLightning) PayInvoiceViaChannel(payreq string, channel string) (string, error) {
+	l.w.noteEffect("pay_fee")
 	l.w.feePays = append(l.w.feePays, vPay{payreq: payreq, scid: channel})
 	zzverif.Effect("pay_fee", payreq, channel)
 	if l.w.fault("payfee.err") {
@@ -199,6 +207,7 @@ func (l *vLightning) AddPaymentNotifier(swapId string, payreq string, invoiceTyp
 }
 
 func (l *vLightning) RebalancePayment(payreq string, channel string, maxTotalCLTVDelta uint32) (string, error) {
+	l.w.noteEffect("pay_claim")
 	l.w.payAttempts++
 	// bound: at most maxPayAttempts attempts per run (outside: stated in the evidence)
 	zzverif.Assume(l.w.payAttempts <= l.w.maxPayAttempts)
@@ -344,6 +353,7 @@ func (w *vWallet) SetLabel(txID, address, label string) error {
 	return nil
 }
 func (w *vWallet) CreateOpeningTransaction(p *OpeningParams) (string, string, string, uint64, uint32, error) {
+	w.w.noteEffect("wallet_open")
 	// the broadcast may have happened although the call reports an error
 	broadcast := zzverif.Bool("open.broadcast")
 	fail := w.w.fault("open.err")
@@ -361,6 +371,7 @@ func (w *vWallet) CreateOpeningTransaction(p *OpeningParams) (string, string, st
 	return w.w.openTxHex, zzverif.Str("open.addr"), w.w.openTxId, zzverif.U64("open.fee"), w.w.openVout, nil
 }
 func (w *vWallet) spend(kind string) (string, string, string, error) {
+	w.w.noteEffect("wallet_spend")
 	zzverif.Effect("wallet_spend_" + kind)
 	if w.w.fault("spend.err") {
 		return "", "", "", errors.New("spend failed")
@@ -406,6 +417,28 @@ func (w *vWallet) GetFlatOpeningTXFee() (uint64, error) {
 }
 func (w *vWallet) GetAsset() string   { w.w.yieldPoint("wallet"); return w.asset }
 func (w *vWallet) GetNetwork() string { w.w.yieldPoint("wallet"); return w.net }
+
+// noteEffect: an action is about to do something the outside world sees.  SendEvent writes the record after
+// every action, so at this moment the stored record must name the state the swap was in before the
+// running action's state was entered (or, during recovery, that state itself): a crash right after the
+// effect is then recovered from a state that knows everything done before.
+func (w *vWorld) noteEffect(kind string) {
+	if w.effectProbe == nil || w.storeRef == nil {
+		return
+	}
+	sm := w.effectProbe()
+	if sm == nil {
+		return
+	}
+	w.effectsSeen++
+	rec, ok := w.storeRef.recs[sm.SwapId.String()]
+	if !ok || (rec.Current != sm.Previous && rec.Current != sm.Current) {
+		if !w.effectStale {
+			w.staleAt = kind
+		}
+		w.effectStale = true
+	}
+}
 
 // yieldPoint: a call into a collaborator is a point where another goroutine of the daemon (timer, watcher
 // callback, message handler, RPC) may run.  Entries that explore schedules set vWorld.interleave to what
@@ -466,6 +499,7 @@ func (m *vMessenger) SendMessage(peerId string, message []byte, messageType int)
 	// a second goroutine of the daemon (timer, watcher, message handler) may become active while this
 	// send is in flight: the harness decides what it does (vWorld.interleave)
 	m.w.yieldPoint("send")
+	m.w.noteEffect("send")
 	snd := vSend{peer: peerId, msgType: messageType, payload: message}
 	if m.w.storeRef != nil {
 		for _, r := range m.w.storeRef.recs {
@@ -548,6 +582,7 @@ func (s *vStore) ids() []string {
 
 func (s *vStore) UpdateData(data *SwapStateMachine) error {
 	if s.w.fault("store.err") {
+		s.w.storeFailed = true
 		return errors.New("store failed")
 	}
 	// the real store marshals the complete record: it reads every field of the swap data
